@@ -800,7 +800,9 @@ def unify(s: Type | Const, t: Type | Const, subst: "Subst | None") -> "Subst | N
             return _unify_var(t_var, s, subst)
         case BoundVar(idx=s_idx), BoundVar(idx=t_idx) if s_idx == t_idx:
             return subst
-        case ConstValue(value=c_value), ConstValue(value=d_value) if c_value == d_value:
+        case ConstValue(value=c_value), ConstValue(value=d_value) if (
+            c_value == d_value and type(c_value) is type(d_value)
+        ):
             return subst
         case NumericType(kind=s_kind), NumericType(kind=t_kind) if s_kind == t_kind:
             return subst
